@@ -77,6 +77,9 @@ class Location(object):
                 self.file_path = file_path.name
             except AttributeError:
                 self.file_path = "<io>"
+            if self.file_path is None:
+                # For example an unnamed temporary file.
+                self.file_path = "<io>"
         self._line = 0
         self._column = 0
         self._cell = 0
